@@ -156,6 +156,11 @@ def pdu_decode_task(ck, task):
     N = binop("+", CF.data_field_len_term(DEC.DATA), C(H))
     if crc:
         D.check_crc_verified(ck, it, env, f"{fn} [{tag}]", "data", Lin({}, 0), linearize(N), "cfdp.exceptions.InvalidCrc")
+        # the refusal itself must be the documented error: reads made while the checksum is verified and while the error
+        # is built stay in bounds, and nothing else escapes from that routine
+        D.check_xbuf(ck, it, f"{fn} [{tag}]", only_funcs=("verify_length_and_checksum",))
+        bad = [x for x in it.raises if not x["caught"] and x["func"].endswith("verify_length_and_checksum") and not it.exc_matches(x["exc"], DEC.allowed_classes(P))]
+        ck.verdict("E-ESC", f"{fn} [{tag}]", "the checksum routine refuses only with documented classes", [f"{x['exc']} at {x['text'][:50]}" for x in bad[:2]], "raise log")
     else:
         got = D.crc_facts(env.facts, "data", True)
         ck.verdict("P-MUST", f"{fn} [{tag}]", "no CRC is demanded when the flag is clear", [f"CRC facts {got}"] if got else [], "none", nontrivial=False)
@@ -177,7 +182,8 @@ def run(ck):
         "the CRC of the whole packet with 0. That CRC-16/CCITT-FALSE detects all bursts up to 16 bits is mathematics and trusted.")
     for r, t in (("W-PACK", "CRC item last, coverage == all preceding items"), ("L-LEN", "declared length == packed length"),
                  ("P-MUST", "CRC over data[0:N] verified before every normal return"), ("K-CONST", "CRC algorithm name"),
-                 ("G-REFUSE", "short buffers refused before the CRC is evaluated")):
+                 ("G-REFUSE", "short buffers refused before the CRC is evaluated"), ("X-BUF", "reads of the checksum routine (also while building its error) in bounds"),
+                 ("E-ESC", "the checksum routine raises documented classes only")):
         ck.rule(r, t)
     ck.trusted += ["CRC-16/CCITT-FALSE detects every burst of up to 16 bits (polynomial property)", "crcmod implements the named algorithm"]
     ck.assumptions += ["corruption outside the length-determining octets (as the property states)"]
